@@ -285,6 +285,11 @@ pub fn run(ctx: &Ctx) {
         }
     });
 
+    // (iv) coverage-guided stage (thorough tier): the same byte-level oracle inside a libFuzzer target
+    if ctx.tier == Tier::Thorough {
+        crate::fuzzstage::run(ctx, "C01", oracle_c01_bytes);
+    }
+
     regressions(ctx);
 }
 
